@@ -16,3 +16,6 @@ Unfold.vos Unfold.vok Unfold.required_vos: Unfold.v PyAst.vos PyVal.vos PySem.vo
 Tactics.vo Tactics.glob Tactics.v.beautified Tactics.required_vo: Tactics.v PyAst.vo PyVal.vo PySem.vo XLemmas.vo
 Tactics.vio: Tactics.v PyAst.vio PyVal.vio PySem.vio XLemmas.vio
 Tactics.vos Tactics.vok Tactics.required_vos: Tactics.v PyAst.vos PyVal.vos PySem.vos XLemmas.vos
+Interp.vo Interp.glob Interp.v.beautified Interp.required_vo: Interp.v 
+Interp.vio: Interp.v 
+Interp.vos Interp.vok Interp.required_vos: Interp.v 
